@@ -1975,3 +1975,139 @@ RECIPES += (
             f.write(line.format(t[k], d[k], t[k + 1], d[k + 1]))
 ''', "tabled1 large field: the loop over full lines runs to npts (reads past the end for an odd number of points, and the last pair is written twice)")]
 )
+
+# ---- constructs met in the third blind round: a list filled in one loop and consumed in the next, slice objects, indices counted from the end,
+# ---- match on literal values, a loop whose last pass leaves by break
+RECIPES += (
+    _pair('''    n = len(ints)
+    firstline = 10 - start
+    if n < firstline:
+        f.write(("{:8d}" * n + "\\n").format(*ints))
+        return
+    i = firstline
+    f.write(("{:8d}" * i + "\\n").format(*ints[:i]))
+    while n > i:
+        if n < i + 8:
+            # last line is only partially filled
+            f.write(("{:8s}" + "{:8d}" * (n - i) + "\\n").format("", *ints[i:]))
+            break
+        f.write(("{:8s}" + "{:8d}" * 8 + "\\n").format("", *ints[i : i + 8]))
+        i += 8
+''', '''    n = len(ints)
+    firstline = 10 - start
+    if n < firstline:
+        f.write(("{:8d}" * n + "\\n").format(*ints))
+        return
+    i = firstline
+    f.write(("{:8d}" * i + "\\n").format(*ints[:i]))
+    while n > i:
+        if n < i + 8:
+            # last line is only partially filled
+            f.write(("{:8s}" + "{:8d}" * (n - i) + "\\n").format("", *ints[i + 1 :]))
+            break
+        f.write(("{:8s}" + "{:8d}" * 8 + "\\n").format("", *ints[i : i + 8]))
+        i += 8
+''', _NASINTS, ["C13-R4"], "wtnasints: one loop, the partial last line written in the pass that leaves by break", "the partial line starts one integer late")
+    + _pair('''        f.write("        ")
+        for j in range(r - npts, 0):
+            f.write(form.format(t[j], d[j]))
+    f.write("ENDT\\n")
+''', '''        f.write("        ")
+        for j in range(r - npts, -1):
+            f.write(form.format(t[j], d[j]))
+    f.write("ENDT\\n")
+''', _T1_LEFT_SMALL, ["C13-R1"], "tabled1 small field: the leftover pairs indexed from the end (negative indices)", "the last pair is never written")
+    + _pair('''            full = slice(0, r)
+            t2, d2 = t[full].reshape(rows, 2), d[full].reshape(rows, 2)
+            writer.vecwrite(f, "*       " + form * 2 + "\\n", t2[:, 0], d2[:, 0], t2[:, 1], d2[:, 1])
+''', '''            full = slice(0, r)
+            t2, d2 = t[full].reshape(rows, 2), d[full].reshape(rows, 2)
+            writer.vecwrite(f, "*       " + form * 2 + "\\n", t2[:, 0], d2[:, 1], t2[:, 1], d2[:, 0])
+''', _T1_LARGE_VEC, ["C13-R1"], "tabled1 large field: a slice object for the full lines, reshaped into rows", "ordinates of the two pairs of a line exchanged")
+    + _pair('''    match n:
+        case 16 | 32:
+            pass
+        case _:
+            raise ValueError(f"`form` produces a {n} length string. It must be 16 or 32.")
+''', '''    match n:
+        case 16 | 32 | 24:
+            pass
+        case _:
+            raise ValueError(f"`form` produces a {n} length string. It must be 16 or 32.")
+''', _T1_GUARD, ["C13-R1"], "tabled1 guard as a match statement on literal values", "24 is let through")
+    + _pair('''                columns = []
+                rowids = c[j][4::4]
+                rowdofs = c[j][5::4]
+                for k in range(len(rowids)):
+                    columns.append((rowids[k], rowdofs[k], c[j][6 + 4 * k], c[j][7 + 4 * k] if mtype >= 3 else 0.0))
+                for nid, dof, real, imag in columns:
+                    val = real if mtype < 3 else real + 1j * imag
+                    ri = np.searchsorted(r_id_dof, nid * 10 + dof)
+                    mat[ri, ci] = val
+                    if form == 6:
+                        mat[ci, ri] = val
+''', '''                columns = []
+                rowids = c[j][4::4]
+                rowdofs = c[j][5::4]
+                for k in range(len(rowids)):
+                    columns.append((rowids[k], rowdofs[k], c[j][7 + 4 * k], c[j][6 + 4 * k] if mtype >= 3 else 0.0))
+                for nid, dof, real, imag in columns:
+                    val = real if mtype < 3 else real + 1j * imag
+                    ri = np.searchsorted(r_id_dof, nid * 10 + dof)
+                    mat[ri, ci] = val
+                    if form == 6:
+                        mat[ci, ri] = val
+''', _RDDMIG_TERMS, ["C13-R3"], "rddmig: the terms of a card collected in a list by one loop and stored by the next", "real and imaginary field exchanged")
+    + [("C13", "neutral", [], B, '''        c = np.size(v, 1)
+        if c < 8:
+            v = np.hstack((v, np.zeros((np.size(v, 0), 8 - c))))
+        return v
+''', '''        pass
+    missing = 0 if v is None else 8 - np.size(v, 1)
+    if missing > 0:
+        v = np.hstack((v, np.zeros((np.size(v, 0), missing))))
+    return v
+''', "rdgrids: the number of missing columns computed for both cases, one return")]
+)
+
+# ---- writer._vecwrite collecting the lines in a buffer of fixed size
+_VECWRITE_BODY = '''    v = range(length)
+    if so is not None:
+        v = v[so]
+    if postfunc:
+        if pfargs is None:
+            pfargs = []
+        for i in v:
+            curargs = getith(i, args, fncs)
+            s = postfunc(string.format(*curargs), *pfargs)
+            fout.write(s)
+    else:
+        for i in v:
+            curargs = getith(i, args, fncs)
+            fout.write(string.format(*curargs))
+'''
+
+_VECWRITE_BUFFERED = '''    v = range(length)
+    if so is not None:
+        v = v[so]
+    if postfunc and pfargs is None:
+        pfargs = []
+    buf = [""] * 512
+    n = 0
+    for i in v:
+        curargs = getith(i, args, fncs)
+        s = string.format(*curargs)
+        if postfunc:
+            s = postfunc(s, *pfargs)
+        buf[n] = s
+        n += 1
+        if n == 512:
+            fout.write("".join(buf))
+            n = 0
+    if n > 0:
+        fout.write("".join(%s))
+'''
+
+RECIPES += _pair(_VECWRITE_BUFFERED % "buf[:n]", _VECWRITE_BUFFERED % "buf", _VECWRITE_BODY, ["C13-R2"],
+                 "_vecwrite: the lines collected in a buffer of 512 slots, written when full and (the filled part) at the end",
+                 "the last, partial block is written with the stale rest of the buffer", file=W)
